@@ -147,6 +147,14 @@ func containerDecode(why string, in []byte, emit bool) (int, []msgJS, int) {
 		c.Nontrivial(fmt.Sprintf("cd%x", in[:min(len(in), 200)]) + fmt.Sprint(len(in)))
 	}
 	common("container-decode", status, sh, ix, js)
+	// malformed count: a container header with a negative message count must be an error
+	if len(in) >= 8 && status == 0 {
+		id := uint32(in[0]) | uint32(in[1])<<8 | uint32(in[2])<<16 | uint32(in[3])<<24
+		cnt := int32(uint32(in[4]) | uint32(in[5])<<8 | uint32(in[6])<<16 | uint32(in[7])<<24)
+		if id == proto.MessageContainerTypeID && cnt < 0 {
+			c.Violate("container-negative-count-accepted", fmt.Sprintf("MessageContainer.Decode accepted message count %d (nil error, %d messages, %d bytes left unread)", cnt, len(ms), rest), sh, ix, js)
+		}
+	}
 	if status == 0 {
 		consumed := len(in) - rest
 		need := 8
@@ -554,7 +562,7 @@ func main() {
 			return b.Buf
 		}
 		for _, x := range [][3]int{{1, msgLimit + 1, 8}, {1, msgLimit, 8}, {1, -1, 8}, {1, -2147483648, 0}, {1, 2147483647, 0}, {-1, 0, 0}, {-2147483648, 0, 0},
-			{2147483647, 0, 0}, {2, 4, 4}, {1, 4, 3}, {0, 0, 0}, {1, 0, 0}} {
+			{2147483647, 0, 0}, {2, 4, 4}, {1, 4, 3}, {0, 0, 0}, {1, 0, 0}, {-5, 0, 32}, {3, 0, 20}, {-283181056, 0, 0}} {
 			containerDecode("corpus-header", hdr(x[0], x[1], x[2]), true)
 		}
 		containerDecode("corpus-header", nil, true)
@@ -616,7 +624,7 @@ func main() {
 	}
 
 	// ----- generated containers -----
-	for i := 0; i < c.N(120, 8000); i++ {
+	for i := 0; i < c.N(120, 2500); i++ {
 		n := r.Intn(6)
 		if r.Chance(1, 10) {
 			n = r.Range(6, 20)
@@ -653,7 +661,7 @@ func main() {
 		containerEncode("random-big", ms, r.Bytes(3), true, false)
 	}
 	// ----- results and plaintext messages -----
-	for i := 0; i < c.N(70, 5000); i++ {
+	for i := 0; i < c.N(70, 2000); i++ {
 		body := r.Bytes(r.Intn(80))
 		resultCases("random", int64(r.U64()), body)
 		var b bin.Buffer
@@ -665,7 +673,7 @@ func main() {
 		unencDecode("mutated", mutate(r, ub.Buf))
 	}
 	// ----- gzip: random payloads, corrupted members -----
-	for i := 0; i < c.N(50, 5000); i++ {
+	for i := 0; i < c.N(50, 1500); i++ {
 		var d []byte
 		switch r.Intn(4) {
 		case 0:
@@ -686,7 +694,7 @@ func main() {
 		gzipDecode("mutated", mutate(r, enc), nil, -1, "")
 	}
 	// ----- arbitrary bytes for every decoder -----
-	for i := 0; i < c.N(90, 10000); i++ {
+	for i := 0; i < c.N(90, 3000); i++ {
 		in := r.Bytes(r.Intn(64))
 		if len(in) >= 4 {
 			switch r.Intn(5) {
